@@ -20,6 +20,62 @@ mod cli {
         pub mod thread {
             pub use shuttle::thread::*;
         }
+        // files opened through `std::fs::File` by main.rs: every create/open and every write is a
+        // pre-emption point, and a write may be short (at most a seeded number of bytes go through
+        // per call, which `write_all` must and does handle) - so two simulated workers writing the
+        // same path interleave the way two real threads can
+        pub mod fs {
+            pub use ::std::fs::*;
+            use ::std::io;
+            use ::std::path::Path;
+
+            fn pre_empt() {
+                if rayon::sim::in_simulation() {
+                    shuttle::thread::sleep(::std::time::Duration::from_millis(0));
+                }
+            }
+            fn short(len: usize) -> usize {
+                if len > 1 && rayon::sim::in_simulation() {
+                    use shuttle::rand::Rng;
+                    let cap = 1 + shuttle::rand::thread_rng().gen_range(0..512usize);
+                    rayon::sim::with(|s| s.stats.short_writes += (cap < len) as u64);
+                    len.min(cap)
+                } else {
+                    len
+                }
+            }
+
+            pub struct File(::std::fs::File);
+            impl File {
+                pub fn create<P: AsRef<Path>>(path: P) -> io::Result<File> {
+                    pre_empt();
+                    ::std::fs::File::create(path).map(File)
+                }
+                pub fn open<P: AsRef<Path>>(path: P) -> io::Result<File> {
+                    pre_empt();
+                    ::std::fs::File::open(path).map(File)
+                }
+                pub fn sync_all(&self) -> io::Result<()> {
+                    self.0.sync_all()
+                }
+            }
+            impl io::Write for File {
+                fn write(&mut self, buf: &[u8]) -> io::Result<usize> {
+                    pre_empt();
+                    let n = short(buf.len());
+                    io::Write::write(&mut self.0, &buf[..n])
+                }
+                fn flush(&mut self) -> io::Result<()> {
+                    io::Write::flush(&mut self.0)
+                }
+            }
+            impl io::Read for File {
+                fn read(&mut self, buf: &mut [u8]) -> io::Result<usize> {
+                    pre_empt();
+                    io::Read::read(&mut self.0, buf)
+                }
+            }
+        }
     }
     include!(concat!(env!("CARGO_MANIFEST_DIR"), "/../repo-link/src/main.rs"));
 
@@ -30,6 +86,7 @@ mod cli {
 
 mod c09;
 mod c10;
+mod c11;
 mod pipeline;
 
 use sim_core::driver::{parse_options, run_check, Check};
@@ -38,6 +95,7 @@ fn pick(id: &str) -> Option<Box<dyn Check>> {
     match id {
         "C09" => Some(Box::new(c09::C09)),
         "C10" => Some(Box::new(c10::C10)),
+        "C11" => Some(Box::new(c11::C11e3)),
         _ => None,
     }
 }
